@@ -123,6 +123,6 @@ def frame(vc):
     import ast, os
     tree = ast.parse(open(os.path.join(frames.REPO, 'cassandra/timestamps.py')).read())
     q = frames._qual_index(tree)
-    callers = sorted({q.get(id(n), '<module>') for n in ast.walk(tree)
-                      if isinstance(n, ast.Call) and isinstance(n.func, ast.Attribute) and n.func.attr == '_next_timestamp'})
-    vc.check('frame/_next_timestamp-called-only-from-__call__', callers == ['MonotonicTimestampGenerator.__call__'], note=str(callers))
+    # every mention of _next_timestamp (called directly or through an alias) sits in __call__, whose body the `call` harness proves to run under the lock
+    callers = sorted({q.get(id(n), '<module>') for n in ast.walk(tree) if isinstance(n, ast.Attribute) and n.attr == '_next_timestamp'})
+    vc.check('frame/_next_timestamp-called-only-from-__call__', set(callers) <= {'MonotonicTimestampGenerator.__call__'}, note=str(callers))
